@@ -106,7 +106,7 @@ func keyOf(d *hx.Disagreement) string {
 		// when the shapes differ
 	}
 	switch ws[1] {
-	case "isrow", "isfrow":
+	case "isrow", "isfrow", "specrow":
 		if len(impl) != len(model) || len(d.Shrunk) > 0 && d.ShrunkAt != d.LineNo {
 			// answers belong to the unshrunk case: classify on it instead
 			if len(d.Shrunk) > 0 {
@@ -118,7 +118,7 @@ func keyOf(d *hx.Disagreement) string {
 		}
 		i, _ := strconv.Atoi(ws[2])
 		errClass := "?"
-		if ws[1] == "isrow" && i < len(sh.vkind) {
+		if (ws[1] == "isrow" || ws[1] == "specrow") && i < len(sh.vkind) {
 			errClass = sh.vkind[i]
 		} else if ws[1] == "isfrow" && i < len(sh.fkind) {
 			errClass = "foreign-" + sh.fkind[i]
@@ -260,6 +260,12 @@ func genCase(rng *rand.Rand, id int, domain bool, small bool) hx.Case {
 	}
 	for k := range sh.fkind {
 		add(fmt.Sprintf("gei isfrow %d", k))
+	}
+	if domain {
+		// the implementation against the SPECIFICATION (specIs / specIsForeign) directly
+		for i := range sh.vkind {
+			add(fmt.Sprintf("gei specrow %d", i))
+		}
 	}
 	for i := range sh.vkind {
 		add(fmt.Sprintf("gei xref %d", i))
